@@ -14,9 +14,29 @@ package writer
 //@ modifies-group STATE = writer.writerState.*, @STACKS
 //@ modifies-group WRITER = writer.writer.*, @STATE, pools.*
 //@ modifies-group BUF = buffer.*, uint8
+//@ modifies-group NOTSTACK = writer.writer.*, writer.writerState.*, writer.listStack.*, writer.messageStack.*, writer.stackEntry.*, format.ListElement.*, format.MessageField.*, pools.*
+//@ modifies-group NOTSTACKS = writer.writer.*, writer.writerState.*, writer.listStack.*, writer.messageStack.*, format.ListElement.*, format.MessageField.*, pools.*
 
 //@ define WI(w) = w != nil && (w.err == nil ==> w.writerState != nil && w.writerState.buf != nil)
 //@      && (w.writerState != nil ==> !w.writerState.releaseWriter)
+//@ define SE(w, k) = w.writerState.stack.stack[k]
+//@ define NS(w) = len(w.writerState.stack.stack)
+//@ define NE(w) = len(w.writerState.elements.stack)
+//@ define NF(w) = len(w.writerState.fields.stack)
+//@ define BL(w) = blen(w.writerState.buf)
+
+// Stack invariant STK(w): every open entry starts inside the buffer, starts are non-decreasing
+// towards the top, a data entry ends inside the buffer, and a list / message entry's table
+// offset lies inside the element / field stack, non-decreasing towards the top.
+//@ define STK1(w) = forall k :: 0 <= k && k < NS(w) ==> 0 <= SE(w, k).start && SE(w, k).start <= BL(w)
+//@ define STK2(w) = forall k :: 0 <= k && k < NS(w) ==> (SE(w, k).type_ == 1 ==> SE(w, k).start <= SE(w, k).tableStart && SE(w, k).tableStart <= BL(w))
+//@ define STK3(w) = forall k :: 0 <= k && k < NS(w) ==> (SE(w, k).type_ == 2 ==> 0 <= SE(w, k).tableStart && SE(w, k).tableStart <= NE(w))
+//@ define STK4(w) = forall k :: 0 <= k && k < NS(w) ==> (SE(w, k).type_ == 4 ==> 0 <= SE(w, k).tableStart && SE(w, k).tableStart <= NF(w))
+//@ define STK5(w) = forall j, k :: 0 <= j && j < k && k < NS(w) ==> SE(w, j).start <= SE(w, k).start
+//@ define STK6(w) = forall j, k :: 0 <= j && j < k && k < NS(w) ==> (SE(w, j).type_ == 2 && SE(w, k).type_ == 2 ==> SE(w, j).tableStart <= SE(w, k).tableStart)
+//@ define STK7(w) = forall j, k :: 0 <= j && j < k && k < NS(w) ==> (SE(w, j).type_ == 4 && SE(w, k).type_ == 4 ==> SE(w, j).tableStart <= SE(w, k).tableStart)
+//@ define STK(w) = STK1(w) && STK2(w) && STK3(w) && STK4(w) && STK5(w) && STK6(w) && STK7(w)
+//@ define WIS(w) = WI(w) && (w.err == nil ==> STK(w))
 //@ define STICKY(w, r) = (old(w.err) != nil ==> w.err == old(w.err) && r == old(w.err)) && (old(w.err) == nil && r != nil ==> w.err != nil)
 
 // ---- stack of open objects
@@ -60,6 +80,7 @@ package writer
 //@   modifies writer.stackEntry.*
 //@   ensures len(s.stack) == old(len(s.stack)) + 1
 //@   ensures s.stack[len(s.stack)-1].start == start && s.stack[len(s.stack)-1].tableStart == end && s.stack[len(s.stack)-1].type_ == 1
+//@   ensures forall k :: 0 <= k && k < old(len(s.stack)) ==> s.stack[k].start == old(s.stack[k].start) && s.stack[k].tableStart == old(s.stack[k].tableStart) && s.stack[k].type_ == old(s.stack[k].type_)
 
 //@ func (*stack).pushList
 //@   safety[C12]
@@ -68,6 +89,7 @@ package writer
 //@   modifies writer.stackEntry.*
 //@   ensures len(s.stack) == old(len(s.stack)) + 1
 //@   ensures s.stack[len(s.stack)-1].start == start && s.stack[len(s.stack)-1].tableStart == tableStart && s.stack[len(s.stack)-1].type_ == 2
+//@   ensures forall k :: 0 <= k && k < old(len(s.stack)) ==> s.stack[k].start == old(s.stack[k].start) && s.stack[k].tableStart == old(s.stack[k].tableStart) && s.stack[k].type_ == old(s.stack[k].type_)
 
 //@ func (*stack).pushElement
 //@   safety[C12]
@@ -75,7 +97,8 @@ package writer
 //@   modifies writer.stack.*
 //@   modifies writer.stackEntry.*
 //@   ensures len(s.stack) == old(len(s.stack)) + 1
-//@   ensures s.stack[len(s.stack)-1].start == start && s.stack[len(s.stack)-1].type_ == 3
+//@   ensures s.stack[len(s.stack)-1].start == start && s.stack[len(s.stack)-1].tableStart == 0 && s.stack[len(s.stack)-1].type_ == 3
+//@   ensures forall k :: 0 <= k && k < old(len(s.stack)) ==> s.stack[k].start == old(s.stack[k].start) && s.stack[k].tableStart == old(s.stack[k].tableStart) && s.stack[k].type_ == old(s.stack[k].type_)
 
 //@ func (*stack).pushMessage
 //@   safety[C12]
@@ -84,6 +107,7 @@ package writer
 //@   modifies writer.stackEntry.*
 //@   ensures len(s.stack) == old(len(s.stack)) + 1
 //@   ensures s.stack[len(s.stack)-1].start == start && s.stack[len(s.stack)-1].tableStart == tableStart && s.stack[len(s.stack)-1].type_ == 4
+//@   ensures forall k :: 0 <= k && k < old(len(s.stack)) ==> s.stack[k].start == old(s.stack[k].start) && s.stack[k].tableStart == old(s.stack[k].tableStart) && s.stack[k].type_ == old(s.stack[k].type_)
 
 //@ func (*stack).pushField
 //@   safety[C12]
@@ -92,6 +116,7 @@ package writer
 //@   modifies writer.stackEntry.*
 //@   ensures len(s.stack) == old(len(s.stack)) + 1
 //@   ensures s.stack[len(s.stack)-1].start == start && s.stack[len(s.stack)-1].tableStart == tag && s.stack[len(s.stack)-1].type_ == 5
+//@   ensures forall k :: 0 <= k && k < old(len(s.stack)) ==> s.stack[k].start == old(s.stack[k].start) && s.stack[k].tableStart == old(s.stack[k].tableStart) && s.stack[k].type_ == old(s.stack[k].type_)
 
 //@ func (stackEntry).end
 //@   safety[C12]
@@ -272,9 +297,311 @@ package writer
 //@   requires WI(w) && w.err == nil
 //@   modifies @WRITER
 //@   ensures[C12] WI(w) && (result != nil ==> w.err != nil && result == w.err) && (result == nil ==> w.err == nil)
+//@   preserves result == nil : @NOTSTACKS
+//@   ensures result == nil ==> NS(w) == old(NS(w)) + 1
+//@   ensures result == nil ==> SE(w, NS(w) - 1).start == start && SE(w, NS(w) - 1).tableStart == end && SE(w, NS(w) - 1).type_ == 1
+//@   ensures result == nil ==> (forall k :: 0 <= k && k < old(NS(w)) ==> SE(w, k).start == old(SE(w, k).start) && SE(w, k).tableStart == old(SE(w, k).tableStart) && SE(w, k).type_ == old(SE(w, k).type_))
 
 //@ func (*writer).popData
 //@   safety[C12]
 //@   requires WI(w) && w.err == nil
 //@   modifies @WRITER
 //@   ensures[C12] WI(w) && (err != nil ==> w.err != nil && err == w.err) && (err == nil ==> w.err == nil)
+//@   preserves err == nil : @NOTSTACK
+//@   ensures err == nil ==> old(NS(w)) > 0 && NS(w) == old(NS(w)) - 1
+//@        && obj(w.writerState.stack.stack) == old(obj(w.writerState.stack.stack)) && off(w.writerState.stack.stack) == old(off(w.writerState.stack.stack))
+//@   ensures err == nil ==> old(SE(w, NS(w) - 1).type_) == 1 && start == old(SE(w, NS(w) - 1).start) && end == old(SE(w, NS(w) - 1).tableStart)
+
+// ---- writer: lists
+
+//@ func (*writer).beginList
+//@   safety[C12]
+//@   requires WI(w)
+//@   requires w.err == nil ==> STK1(w)
+//@   requires w.err == nil ==> STK2(w)
+//@   requires w.err == nil ==> STK3(w)
+//@   requires w.err == nil ==> STK4(w)
+//@   requires w.err == nil ==> STK5(w)
+//@   requires w.err == nil ==> STK6(w)
+//@   requires w.err == nil ==> STK7(w)
+//@   modifies @WRITER
+//@   ensures[C12] WI(w)
+//@   ensures[C12] w.err == nil ==> STK1(w)
+//@   ensures[C12] w.err == nil ==> STK2(w)
+//@   ensures[C12] w.err == nil ==> STK3(w)
+//@   ensures[C12] w.err == nil ==> STK4(w)
+//@   ensures[C12] w.err == nil ==> STK5(w)
+//@   ensures[C12] w.err == nil ==> STK6(w)
+//@   ensures[C12] w.err == nil ==> STK7(w)
+//@   ensures[C12] STICKY(w, result)
+//@   ensures[C12] old(w.err) == nil && result == nil ==> w.err == nil
+
+//@ func (*writer).beginElement
+//@   safety[C12]
+//@   requires WI(w)
+//@   requires w.err == nil ==> STK1(w)
+//@   requires w.err == nil ==> STK2(w)
+//@   requires w.err == nil ==> STK3(w)
+//@   requires w.err == nil ==> STK4(w)
+//@   requires w.err == nil ==> STK5(w)
+//@   requires w.err == nil ==> STK6(w)
+//@   requires w.err == nil ==> STK7(w)
+//@   modifies @WRITER
+//@   ensures[C12] WI(w)
+//@   ensures[C12] w.err == nil ==> STK1(w)
+//@   ensures[C12] w.err == nil ==> STK2(w)
+//@   ensures[C12] w.err == nil ==> STK3(w)
+//@   ensures[C12] w.err == nil ==> STK4(w)
+//@   ensures[C12] w.err == nil ==> STK5(w)
+//@   ensures[C12] w.err == nil ==> STK6(w)
+//@   ensures[C12] w.err == nil ==> STK7(w)
+//@   ensures[C12] STICKY(w, result)
+//@   ensures[C12] old(w.err) == nil && result == nil ==> w.err == nil
+
+//@ func (*writer).element
+//@   safety[C12]
+//@   requires WI(w)
+//@   requires w.err == nil ==> STK1(w)
+//@   requires w.err == nil ==> STK2(w)
+//@   requires w.err == nil ==> STK3(w)
+//@   requires w.err == nil ==> STK4(w)
+//@   requires w.err == nil ==> STK5(w)
+//@   requires w.err == nil ==> STK6(w)
+//@   requires w.err == nil ==> STK7(w)
+//@   modifies @WRITER
+//@   ensures[C12] WI(w)
+//@   ensures[C12] w.err == nil ==> STK1(w)
+//@   ensures[C12] w.err == nil ==> STK2(w)
+//@   ensures[C12] w.err == nil ==> STK3(w)
+//@   ensures[C12] w.err == nil ==> STK4(w)
+//@   ensures[C12] w.err == nil ==> STK5(w)
+//@   ensures[C12] w.err == nil ==> STK6(w)
+//@   ensures[C12] w.err == nil ==> STK7(w)
+//@   ensures[C12] STICKY(w, result)
+//@   ensures[C12] old(w.err) == nil && result == nil ==> w.err == nil
+
+//@ func (*writer).listLen
+//@   safety[C12]
+//@   requires WI(w)
+//@   requires w.err == nil ==> STK1(w)
+//@   requires w.err == nil ==> STK2(w)
+//@   requires w.err == nil ==> STK3(w)
+//@   requires w.err == nil ==> STK4(w)
+//@   requires w.err == nil ==> STK5(w)
+//@   requires w.err == nil ==> STK6(w)
+//@   requires w.err == nil ==> STK7(w)
+
+//@ func (*writer).endElement
+//@   safety[C12]
+//@   requires WI(w)
+//@   requires w.err == nil ==> STK1(w)
+//@   requires w.err == nil ==> STK2(w)
+//@   requires w.err == nil ==> STK3(w)
+//@   requires w.err == nil ==> STK4(w)
+//@   requires w.err == nil ==> STK5(w)
+//@   requires w.err == nil ==> STK6(w)
+//@   requires w.err == nil ==> STK7(w)
+//@   modifies @WRITER
+//@   ensures[C12] WI(w)
+//@   ensures[C12] w.err == nil ==> STK1(w)
+//@   ensures[C12] w.err == nil ==> STK2(w)
+//@   ensures[C12] w.err == nil ==> STK3(w)
+//@   ensures[C12] w.err == nil ==> STK4(w)
+//@   ensures[C12] w.err == nil ==> STK5(w)
+//@   ensures[C12] w.err == nil ==> STK6(w)
+//@   ensures[C12] w.err == nil ==> STK7(w)
+//@   ensures[C12] STICKY(w, result1)
+//@   ensures[C12] old(w.err) == nil && result1 == nil ==> w.err == nil
+
+//@ func (*writer).endList
+//@   safety[C12]
+//@   requires WI(w)
+//@   requires w.err == nil ==> STK1(w)
+//@   requires w.err == nil ==> STK2(w)
+//@   requires w.err == nil ==> STK3(w)
+//@   requires w.err == nil ==> STK4(w)
+//@   requires w.err == nil ==> STK5(w)
+//@   requires w.err == nil ==> STK6(w)
+//@   requires w.err == nil ==> STK7(w)
+//@   modifies @WRITER
+//@   modifies @BUF
+//@   ensures[C12] WI(w)
+//@   ensures[C12] w.err == nil ==> STK1(w)
+//@   ensures[C12] w.err == nil ==> STK2(w)
+//@   ensures[C12] w.err == nil ==> STK3(w)
+//@   ensures[C12] w.err == nil ==> STK4(w)
+//@   ensures[C12] w.err == nil ==> STK5(w)
+//@   ensures[C12] w.err == nil ==> STK6(w)
+//@   ensures[C12] w.err == nil ==> STK7(w)
+//@   ensures[C12] STICKY(w, result1)
+//@   ensures[C12] old(w.err) == nil && result1 == nil ==> w.err == nil
+
+// ---- writer: messages
+
+//@ func (*writer).beginMessage
+//@   safety[C12]
+//@   requires WI(w)
+//@   requires w.err == nil ==> STK1(w)
+//@   requires w.err == nil ==> STK2(w)
+//@   requires w.err == nil ==> STK3(w)
+//@   requires w.err == nil ==> STK4(w)
+//@   requires w.err == nil ==> STK5(w)
+//@   requires w.err == nil ==> STK6(w)
+//@   requires w.err == nil ==> STK7(w)
+//@   modifies @WRITER
+//@   ensures[C12] WI(w)
+//@   ensures[C12] w.err == nil ==> STK1(w)
+//@   ensures[C12] w.err == nil ==> STK2(w)
+//@   ensures[C12] w.err == nil ==> STK3(w)
+//@   ensures[C12] w.err == nil ==> STK4(w)
+//@   ensures[C12] w.err == nil ==> STK5(w)
+//@   ensures[C12] w.err == nil ==> STK6(w)
+//@   ensures[C12] w.err == nil ==> STK7(w)
+//@   ensures[C12] STICKY(w, result)
+//@   ensures[C12] old(w.err) == nil && result == nil ==> w.err == nil
+
+//@ func (*writer).beginField
+//@   safety[C12]
+//@   requires WI(w)
+//@   requires w.err == nil ==> STK1(w)
+//@   requires w.err == nil ==> STK2(w)
+//@   requires w.err == nil ==> STK3(w)
+//@   requires w.err == nil ==> STK4(w)
+//@   requires w.err == nil ==> STK5(w)
+//@   requires w.err == nil ==> STK6(w)
+//@   requires w.err == nil ==> STK7(w)
+//@   modifies @WRITER
+//@   ensures[C12] WI(w)
+//@   ensures[C12] w.err == nil ==> STK1(w)
+//@   ensures[C12] w.err == nil ==> STK2(w)
+//@   ensures[C12] w.err == nil ==> STK3(w)
+//@   ensures[C12] w.err == nil ==> STK4(w)
+//@   ensures[C12] w.err == nil ==> STK5(w)
+//@   ensures[C12] w.err == nil ==> STK6(w)
+//@   ensures[C12] w.err == nil ==> STK7(w)
+//@   ensures[C12] STICKY(w, result)
+//@   ensures[C12] old(w.err) == nil && result == nil ==> w.err == nil
+
+//@ func (*writer).field
+//@   safety[C12]
+//@   requires WI(w)
+//@   requires w.err == nil ==> STK1(w)
+//@   requires w.err == nil ==> STK2(w)
+//@   requires w.err == nil ==> STK3(w)
+//@   requires w.err == nil ==> STK4(w)
+//@   requires w.err == nil ==> STK5(w)
+//@   requires w.err == nil ==> STK6(w)
+//@   requires w.err == nil ==> STK7(w)
+//@   modifies @WRITER
+//@   ensures[C12] WI(w)
+//@   ensures[C12] w.err == nil ==> STK1(w)
+//@   ensures[C12] w.err == nil ==> STK2(w)
+//@   ensures[C12] w.err == nil ==> STK3(w)
+//@   ensures[C12] w.err == nil ==> STK4(w)
+//@   ensures[C12] w.err == nil ==> STK5(w)
+//@   ensures[C12] w.err == nil ==> STK6(w)
+//@   ensures[C12] w.err == nil ==> STK7(w)
+//@   ensures[C12] STICKY(w, result)
+//@   ensures[C12] old(w.err) == nil && result == nil ==> w.err == nil
+
+//@ func (*writer).hasField
+//@   safety[C12]
+//@   requires WI(w)
+//@   requires w.err == nil ==> STK1(w)
+//@   requires w.err == nil ==> STK2(w)
+//@   requires w.err == nil ==> STK3(w)
+//@   requires w.err == nil ==> STK4(w)
+//@   requires w.err == nil ==> STK5(w)
+//@   requires w.err == nil ==> STK6(w)
+//@   requires w.err == nil ==> STK7(w)
+
+//@ func (*writer).endField
+//@   safety[C12]
+//@   requires WI(w)
+//@   requires w.err == nil ==> STK1(w)
+//@   requires w.err == nil ==> STK2(w)
+//@   requires w.err == nil ==> STK3(w)
+//@   requires w.err == nil ==> STK4(w)
+//@   requires w.err == nil ==> STK5(w)
+//@   requires w.err == nil ==> STK6(w)
+//@   requires w.err == nil ==> STK7(w)
+//@   modifies @WRITER
+//@   ensures[C12] WI(w)
+//@   ensures[C12] w.err == nil ==> STK1(w)
+//@   ensures[C12] w.err == nil ==> STK2(w)
+//@   ensures[C12] w.err == nil ==> STK3(w)
+//@   ensures[C12] w.err == nil ==> STK4(w)
+//@   ensures[C12] w.err == nil ==> STK5(w)
+//@   ensures[C12] w.err == nil ==> STK6(w)
+//@   ensures[C12] w.err == nil ==> STK7(w)
+//@   ensures[C12] STICKY(w, result1)
+//@   ensures[C12] old(w.err) == nil && result1 == nil ==> w.err == nil
+
+//@ func (*writer).endMessage
+//@   safety[C12]
+//@   requires WI(w)
+//@   requires w.err == nil ==> STK1(w)
+//@   requires w.err == nil ==> STK2(w)
+//@   requires w.err == nil ==> STK3(w)
+//@   requires w.err == nil ==> STK4(w)
+//@   requires w.err == nil ==> STK5(w)
+//@   requires w.err == nil ==> STK6(w)
+//@   requires w.err == nil ==> STK7(w)
+//@   modifies @WRITER
+//@   modifies @BUF
+//@   ensures[C12] WI(w)
+//@   ensures[C12] w.err == nil ==> STK1(w)
+//@   ensures[C12] w.err == nil ==> STK2(w)
+//@   ensures[C12] w.err == nil ==> STK3(w)
+//@   ensures[C12] w.err == nil ==> STK4(w)
+//@   ensures[C12] w.err == nil ==> STK5(w)
+//@   ensures[C12] w.err == nil ==> STK6(w)
+//@   ensures[C12] w.err == nil ==> STK7(w)
+//@   ensures[C12] STICKY(w, result1)
+//@   ensures[C12] old(w.err) == nil && result1 == nil ==> w.err == nil
+
+// ---- writer: values and end
+
+//@ func (*writer).endValue
+//@   safety[C12]
+//@   requires WI(w)
+//@   requires w.err == nil ==> STK1(w)
+//@   requires w.err == nil ==> STK2(w)
+//@   requires w.err == nil ==> STK3(w)
+//@   requires w.err == nil ==> STK4(w)
+//@   requires w.err == nil ==> STK5(w)
+//@   requires w.err == nil ==> STK6(w)
+//@   requires w.err == nil ==> STK7(w)
+//@   modifies @WRITER
+//@   ensures[C12] WI(w)
+//@   ensures[C12] w.err == nil ==> STK1(w)
+//@   ensures[C12] w.err == nil ==> STK2(w)
+//@   ensures[C12] w.err == nil ==> STK3(w)
+//@   ensures[C12] w.err == nil ==> STK4(w)
+//@   ensures[C12] w.err == nil ==> STK5(w)
+//@   ensures[C12] w.err == nil ==> STK6(w)
+//@   ensures[C12] w.err == nil ==> STK7(w)
+//@   ensures[C12] STICKY(w, result1)
+//@   ensures[C12] old(w.err) == nil && result1 == nil ==> w.err == nil
+
+//@ func (*writer).end
+//@   safety[C12]
+//@   requires WI(w)
+//@   requires w.err == nil ==> STK1(w)
+//@   requires w.err == nil ==> STK2(w)
+//@   requires w.err == nil ==> STK3(w)
+//@   requires w.err == nil ==> STK4(w)
+//@   requires w.err == nil ==> STK5(w)
+//@   requires w.err == nil ==> STK6(w)
+//@   requires w.err == nil ==> STK7(w)
+//@   modifies @WRITER
+//@   modifies @BUF
+//@   ensures[C12] WI(w)
+//@   ensures[C12] w.err == nil ==> STK1(w)
+//@   ensures[C12] w.err == nil ==> STK2(w)
+//@   ensures[C12] w.err == nil ==> STK3(w)
+//@   ensures[C12] w.err == nil ==> STK4(w)
+//@   ensures[C12] w.err == nil ==> STK5(w)
+//@   ensures[C12] w.err == nil ==> STK6(w)
+//@   ensures[C12] w.err == nil ==> STK7(w)
+//@   ensures[C12] STICKY(w, err)
